@@ -43,7 +43,7 @@ def shards(tier, seed):
     # (i) product
     idx = 0
     for n, concepts, extra in G.base_graphs(3, 2, 'mid'):
-        out.append({'sub': 'product', 'g': idx, 'double': not q, 'bounds': 'GRAPH(3,2) mid pool: full marker product (Push(v)/none x 0..2 POPs per triple); ' + ('<=4 triples: all orders; 5 triples: orders within 1 adjacent transposition; 4-5 triples: Push on non-instance triples only, instance triples carry 0..1 POPs' if q else '<=4 triples: all orders; 5 triples: orders within 2 adjacent transpositions; double Push') + '; every top'})
+        out.append({'sub': 'product', 'g': idx, 'double': not q, 'bounds': 'GRAPH(3,2) mid pool: full marker product (Push(v)/none x 0..2 POPs per triple); ' + ('<=4 triples: all orders; 5 triples: orders within 1 adjacent transposition; 4-5 triples: Push on non-instance triples only, instance triples carry 0..1 POPs' if q else '<=4 triples: all orders; 5 triples: orders within 2 adjacent transpositions; two Push markers per triple on graphs of <= 3 triples') + '; every top'})
         idx += 1
     idx = 0
     for n, concepts, extra in G.base_graphs(2, 1, 'wide'):
@@ -57,10 +57,10 @@ def shards(tier, seed):
         big = T.shard_list(4, 4, 3, 'c06n', extra={'sub': 'edits', 'k': 1, 'bounds': b})
         out += big[seed % 4::4]    # rotating quarter of the largest family (each shard exhaustive)
     else:
-        b = '<=3 edits from the decoding of TREE(3,2,3), <=2 edits from TREE(3,3,3) (c06m alphabet) and TREE(4,4,4) (c06n alphabet); every top'
-        out += T.shard_list(3, 2, 3, 'c06m', extra={'sub': 'edits', 'k': 3, 'bounds': b})
+        b = '<=3 edits from the decoding of TREE(3,2,3), <=2 edits from TREE(3,3,3) (c06m alphabet), <=1 edit from TREE(4,4,3) (c06n alphabet); every top; every state also as deep copy'
+        out += T.shard_list(3, 2, 3, 'c06m', extra={'sub': 'edits', 'k': 3, 'names2': 1, 'bounds': b})
         out += T.shard_list(3, 3, 3, 'c06m', extra={'sub': 'edits', 'k': 2, 'bounds': b})
-        out += T.shard_list(4, 4, 4, 'c06n', pin=3, extra={'sub': 'edits', 'k': 2, 'bounds': b})
+        out += T.shard_list(4, 4, 3, 'c06n', pin=3, extra={'sub': 'edits', 'k': 1, 'bounds': b})
     out += T.shard_list(3, 2, 3, 'c06amr', extra={'sub': 'edits', 'k': 1 if q else 2, 'model': 'AMR', 'bounds': 'AMR model, roles ending in -of by definition: <=1/2 edits from the decoding of TREE(3,2,3)'})
     # (ii') surplus POPs: k extra POPs on each triple in turn, k = 1..5
     out += T.shard_list(3, 3, 3, 'c06m', extra={'sub': 'surplus', 'bounds': 'decoding of TREE(3,3,3) (c06m alphabet) with 1..5 surplus POPs added on each triple in turn, every top'})
@@ -95,16 +95,16 @@ def cases(shard):
             n, concepts, extra = _gl[shard['g']]
         triples = G.instance_triples(n, concepts) + list(extra)
         vs = G.VARS[:n]
-        small = len(triples) <= (4 if shard['double'] else 3)
+        small = len(triples) <= 3
         allorders = len(triples) <= 4
         pushopts = [[]] + [[v] for v in vs]
-        if shard['double']:
+        if shard['double'] and small:
             pushopts += [[v, w] for v in vs for w in vs if v != w]
         for order in G.orderings(triples, 'all' if allorders else ('adjacent2' if shard['double'] else 'adjacent1')):
             per = []
             for tr in order:
                 if tr[1] == ':instance' and not small:
-                    per.append([(p, k) for p in [[]] for k in ((0, 1, 2) if shard['double'] else (0, 1))])
+                    per.append([(p, k) for p in [[]] for k in (0, 1)])
                 else:
                     per.append([(p, k) for p in pushopts for k in (0, 1, 2)])
             for marks in itertools.product(*per):
